@@ -1,122 +1,73 @@
-// C01 — composition of a frame by BarState::{draw, println}: text lines first (one per printed line, never counted),
-// then the bar's own rendering split into one Bar line per newline-separated row (blank rows included), nothing of the
-// bar only when it is finished-and-cleared. This is the precondition the draw_to_term step harnesses assume, and the
-// row accounting (last_line_count = number of bar rows) that makes the next redraw erase exactly the old frame.
-// @file-encodes state::BarState::println, state::BarState::draw, style::ProgressStyle::format_state, style::ProgressStyle::push_line, draw_target::Drawable::state, draw_target::Drawable::draw, draw_target::DrawState::draw_to_term
-// @file-assumes BarState built directly (rig) over the abstract screen (W=16, H=8: nothing wraps, everything fits), template "{msg}", message / printed text from small tables incl. embedded and doubled newlines and the empty string; Instant::now frozen
+// C01 — composition of a frame by BarState::{draw, println}: printed text lines first (never counted), then the bar's own
+// lines, and nothing of the bar only when it is finished-and-cleared. (How a rendered string is split into Bar lines is
+// decided by the push_line harness in harness/style/c01_push_line.rs; the terminal protocol by the draw_to_term steps.)
+// @file-encodes state::BarState::println, state::BarState::draw, draw_target::ProgressDrawTarget::drawable, draw_target::Drawable::state, draw_target::Drawable::draw, draw_target::ProgressDrawTarget::width
+// @file-assumes BarState built directly (rig); ProgressStyle::format_state replaced by a recorder that contributes one bar line; DrawState::draw_to_term replaced by its contract on a row stack; printed text is "x" (one line) -- the split of multi-line text is a String allocation of symbolic size per line that CBMC cannot digest; Instant::now frozen
 #[cfg(kani)]
 mod verif_c01_compose {
     use super::verif_rig_state::*;
     use super::*;
-    use crate::draw_target::verif_scr::*;
+    use crate::draw_target::verif_rig_dt::*;
     use crate::style::verif_rig_style::*;
     use crate::verif_common::*;
 
-    // message table: (text, number of rows it renders to, index of a blank row or 9)
-    const MSG: [(&str, usize, usize); 4] = [("m", 1, 9), ("a\nb", 2, 9), ("t\n\nb", 3, 1), ("", 0, 9)];
-    // printed text table: (text, number of log lines it prints)
-    const LOG: [(&str, usize); 3] = [("x", 1), ("x\ny", 2), ("", 1)];
-
-    /// message and printed text are CONCRETE per instance (symbolic string contents make the str::lines/split machinery
-    /// explode); the bar status is symbolic
-    fn run(use_println: bool, mi: usize, li: usize) {
-        let scr = leak_scr(16, 8);
-        scr_with_frame(scr, 3, 0);
+    fn run(use_println: bool) {
+        unsafe {
+            SLEN = 0;
+            DRAWS = 0;
+            LOG_FLOOR = 2;
+            FS_CALLS = 0;
+        }
+        stack_push(b'L');
+        stack_push(b'L');
+        let b: usize = kani::any();
+        kani::assume(b <= 1);
+        if b == 1 {
+            stack_push(b'O');
+        }
         let now = mk_instant(1_000_000, 0);
         let status: u8 = kani::any();
         kani::assume(status < 3);
-        let spec = [RigPart::Key("msg")];
-        let mut ps = rig_pstate(1, Some(2), 0, status);
-        ps.message = TabExpandedString::new(MSG[mi].0.into(), 8);
-        let mut bs = rig_bar(ps, rig_style_spec(&spec), scr_target(scr), ProgressFinish::AndLeave);
+        let ps = rig_pstate(1, Some(2), 0, status);
+        let mut bs = rig_bar(ps, rig_style_empty(), null_target(16, 8, b), ProgressFinish::AndLeave);
         if use_println {
-            bs.println(now, LOG[li].0);
+            bs.println(now, "x");
         } else {
             assert!(bs.draw(true, now).is_ok());
         }
-        let ntext = if use_println { LOG[li].1 } else { 0 };
-        let nbar = if status == 2 { 0 } else { MSG[mi].1 };
-        let lines = target_lines(&bs.draw_target);
-        assert!(lines.len() == ntext + nbar);
-        let mut i = 0;
-        while i < 5 {
-            if i < lines.len() {
-                let k = line_kind(&lines[i]);
-                if i < ntext {
-                    assert!(k == 0 || k == 2); // printed text (Empty for an empty println)
-                } else {
-                    assert!(k == 1); // every row of the bar is a Bar line, blank rows included
-                }
-                // no line contains a newline
-                let b = lines[i].as_ref().as_bytes();
-                assert!(b.len() <= 1);
-                if b.len() == 1 {
-                    assert!(b[0] != b'\n');
-                }
+        let ntext = if use_println { 1 } else { 0 };
+        let nbar = if status == 2 { 0 } else { 1 };
+        unsafe {
+            assert!(DRAWS == 1);
+            assert!(FS_CALLS == nbar); // the bar is rendered unless it is finished-and-cleared (also when finished visibly)
+            assert!(LAST_TEXT == ntext && LAST_BARS == nbar);
+            assert!(SLEN == 2 + ntext + nbar); // the old frame is gone, the text row stays above the new frame
+            if ntext == 1 {
+                assert!(STACK[2] == b'x');
             }
-            i += 1;
         }
-        // row accounting and screen: text rows stay above, exactly the bar rows are owned by the frame
-        assert!(target_last(&bs.draw_target) == nbar);
-        let mut r = 0;
-        while r < NROWS {
-            if r < 4 {
-                assert!(scr.tag(r) == T_LOG);
-            }
-            r += 1;
-        }
-        if ntext + nbar > 0 {
-            assert!(scr.row.get() == 4 + ntext + nbar - 1);
-        }
-        kani::cover!(status == 1);
-        kani::cover!(status == 2);
+        assert!(target_last_rows(&bs.draw_target) == nbar); // text rows are never counted
+        kani::cover!(status == 1 && use_println);
+        kani::cover!(status == 2 && b == 1);
         kani::cover!(status == 0);
         std::mem::forget(bs);
     }
 
-    // @harness id=C01 tier=quick timeout=3000 mem=14
-    // @bounds BarState::println with message "t\\n\\nb", printed text "x\\ny", bar in progress / finished-visible / finished-and-cleared (symbolic): lines = printed lines, then one Bar line per message row (none when cleared, blank rows included); last_line_count = bar rows
+    // @harness id=C01 tier=quick timeout=1800 mem=6 checks=rust
+    // @bounds BarState::println("x") on a bar in progress / finished-visible / finished-and-cleared (symbolic), previous frame of 0..=1 rows: text line first, then the bar line (none when cleared); last_line_count = bar rows
     #[kani::proof]
-    #[kani::unwind(13)]
-    //@STUBS std now widthascii repeat noterm nomulti rlany noweight
-    fn c01_compose_println_m2_l1() {
-        run(true, 2, 1);
+    #[kani::unwind(6)]
+    //@STUBS std now widthascii noterm nomulti rlany noweight fsrecord dttcontract
+    fn c01_compose_println() {
+        run(true);
     }
 
-    // @harness id=C01 tier=quick timeout=3000 mem=14
-    // @bounds BarState::println with message "m", printed text "", bar in progress / finished-visible / finished-and-cleared (symbolic): lines = printed lines, then one Bar line per message row (none when cleared, blank rows included); last_line_count = bar rows
+    // @harness id=C01 tier=quick timeout=1800 mem=6 checks=rust
+    // @bounds BarState::draw (forced), same states: the frame is the bar line (none when cleared)
     #[kani::proof]
-    #[kani::unwind(13)]
-    //@STUBS std now widthascii repeat noterm nomulti rlany noweight
-    fn c01_compose_println_m0_l2() {
-        run(true, 0, 2);
+    #[kani::unwind(6)]
+    //@STUBS std now widthascii noterm nomulti rlany noweight fsrecord dttcontract
+    fn c01_compose_draw() {
+        run(false);
     }
-
-    // @harness id=C01 tier=thorough timeout=3000 mem=14
-    // @bounds BarState::println with message "", printed text "x", bar in progress / finished-visible / finished-and-cleared (symbolic): lines = printed lines, then one Bar line per message row (none when cleared, blank rows included); last_line_count = bar rows
-    #[kani::proof]
-    #[kani::unwind(13)]
-    //@STUBS std now widthascii repeat noterm nomulti rlany noweight
-    fn c01_compose_println_m3_l0() {
-        run(true, 3, 0);
-    }
-
-    // @harness id=C01 tier=quick timeout=3000 mem=14
-    // @bounds BarState::draw (forced) with message "a\\nb", bar in progress / finished-visible / finished-and-cleared (symbolic): lines = printed lines, then one Bar line per message row (none when cleared, blank rows included); last_line_count = bar rows
-    #[kani::proof]
-    #[kani::unwind(13)]
-    //@STUBS std now widthascii repeat noterm nomulti rlany noweight
-    fn c01_compose_draw_m1() {
-        run(false, 1, 0);
-    }
-
-    // @harness id=C01 tier=thorough timeout=3000 mem=14
-    // @bounds BarState::draw (forced) with message "t\\n\\nb", bar in progress / finished-visible / finished-and-cleared (symbolic): lines = printed lines, then one Bar line per message row (none when cleared, blank rows included); last_line_count = bar rows
-    #[kani::proof]
-    #[kani::unwind(13)]
-    //@STUBS std now widthascii repeat noterm nomulti rlany noweight
-    fn c01_compose_draw_m2() {
-        run(false, 2, 0);
-    }
-
 }
